@@ -83,7 +83,7 @@ theorem vFields_complete (hfp : FpAgree) (types : List Elem) (hnr : NoTopLevelRe
     (hsz : SizesAgree types) (lp : Path) :
     ∀ (fields : List FieldDef) (cur : Nat),
       (∀ f ∈ fields, symbolicName f.name = true ∧ fieldViols types lp f = []) →
-      (fieldMinima types cur fields).filterMap (fieldOffsetViol lp) = [] →
+      (fieldMinima types cur fields).filterMap (fieldOffsetViol types lp) = [] →
       ∃ e, vFields types lp cur fields = .ok e := by
   intro fields
   induction fields with
@@ -110,24 +110,26 @@ theorem vFields_complete (hfp : FpAgree) (types : List Elem) (hnr : NoTopLevelRe
       simp only [hc, ↓reduceIte, bind_ok]
       exact ⟨(), vConstantField_complete hfp types _ f hfv, he⟩
     · simp only [fieldMinima, hc, Bool.false_eq_true, ↓reduceIte, g3, List.filterMap_cons] at hoff
-      have hov : fieldOffsetViol lp (f, cur) = none := by
-        cases hx : fieldOffsetViol lp (f, cur) with
+      have hov : fieldOffsetViol types lp (f, cur) = none := by
+        cases hx : fieldOffsetViol types lp (f, cur) with
         | none => rfl
         | some v => simp [hx] at hoff
-      have hoff' : (fieldMinima types (f.offset.getD cur + sz) rest).filterMap (fieldOffsetViol lp) = [] := by
+      have hoff' : (fieldMinima types (f.offset.getD cur + sz) rest).filterMap (fieldOffsetViol types lp) = [] := by
         simpa [hov] using hoff
       obtain ⟨e, he⟩ := ih _ hrest hoff'
       refine ⟨e, hname, _, hinfo, ?_⟩
       simp only [hc, Bool.false_eq_true, ↓reduceIte]
+      obtain ⟨hmin, hfit⟩ := (fieldOffsetViol_none types lp f cur sz g3).mp hov
       cases ho : f.offset with
-      | none => simpa [ho] using he
+      | none =>
+        simp only [ho, Option.getD_none] at he hfit
+        simp only [bind_ok, vAdvance_ok]
+        exact ⟨_, ⟨hfit, rfl⟩, he⟩
       | some o =>
-        simp only [ho, Option.getD_some] at he
-        unfold fieldOffsetViol at hov
-        simp only [ho] at hov
-        by_cases hlt : o < cur
-        · simp [hlt] at hov
-        · simp [hlt, he]
+        simp only [ho, Option.getD_some] at he hfit
+        have hlt : ¬ o < cur := by have := hmin o ho; omega
+        simp only [hlt, ↓reduceIte, bind_ok, vAdvance_ok]
+        exact ⟨_, ⟨hfit, rfl⟩, he⟩
 
 theorem vDatas_complete (types : List Elem) (hsz : SizesAgree types) (lp : Path) :
     ∀ (datas : List DataDef),
@@ -143,7 +145,7 @@ theorem vDatas_complete (types : List Elem) (hsz : SizesAgree types) (lp : Path)
 
 theorem levelGood_parts (types : List Elem) (l : LevelView) (h : LevelGood types l) :
     (∀ f ∈ l.fields, symbolicName f.name = true ∧ fieldViols types l.path f = []) ∧
-    (fieldMinima types 0 l.fields).filterMap (fieldOffsetViol l.path) = [] ∧
+    (fieldMinima types 0 l.fields).filterMap (fieldOffsetViol types l.path) = [] ∧
     levelValueViols types l.hdr l.path l.blockLength l.fields l.groups.length l.datas.length = [] ∧
     (∀ g ∈ l.groups, symbolicName (gName g) = true ∧
       headerViols types (l.path ++ [gName g]) (gDim g) ["numInGroup", "blockLength"] false = []) ∧
